@@ -178,7 +178,11 @@ pub fn tracegen(opts: &Opts) -> i32 {
         }
     };
     let mut store = Some(store);
-    let nkeys = rng.range(2, 7);
+    let nkeys = match opts.u64("nkeys", 0) {
+        0 => rng.range(2, 7),
+        n => n,
+    };
+    let noflush = opts.u64("noflush", 0) == 1;
     let mut ecount = 0u64;
     let heal_at = opts.u64("heal_at", u64::MAX);
     for i in 0..nops {
@@ -250,6 +254,9 @@ pub fn tracegen(opts: &Opts) -> i32 {
                 hex(&k),
                 r.as_ref().map(|_| "ok".to_string()).unwrap_or_else(|e| err_name(e))
             ));
+        } else if kind < 90 && noflush {
+            // C19 workloads never ask for a flush: durability must come from the write-behind alone
+            std::thread::sleep(std::time::Duration::from_millis(rng.below(3)));
         } else if kind < 90 {
             let inv = tracer.next();
             let r = st.flush();
@@ -268,6 +275,40 @@ pub fn tracegen(opts: &Opts) -> i32 {
         } else {
             std::thread::sleep(std::time::Duration::from_millis(rng.below(140)));
         }
+    }
+    // C19: no flush and no close -- after `settle_ms` everything accepted before the wait must be
+    // durable.  Recorded like an acknowledgement invoked before the wait and returned after it.
+    let settle = opts.u64("settle_ms", 0);
+    if settle > 0 {
+        let inv = tracer.next();
+        let noise = opts.u64("noise", 0) == 1;
+        let deadline = std::time::Instant::now() + std::time::Duration::from_millis(settle);
+        if noise {
+            // busy neighbours: other keys keep being written during the wait
+            let st = store.as_ref().unwrap();
+            let mut j = 0u64;
+            while std::time::Instant::now() < deadline {
+                let k = format!("noise{}", j % 17).into_bytes();
+                let v = value_for(seed.wrapping_mul(31).wrapping_add(j), 100 + (j % 5000) as usize);
+                let oinv = tracer.next();
+                let r = st.insert(&k, &v);
+                let oret = tracer.next();
+                let ts = st.verif_snapshot().iter().find(|x| x.key == k).map_or(0, |x| x.timestamp);
+                tracer.note(format!(
+                    "{oinv} OP put key={} vh={:016x} len={} ret={oret} res={} ts={ts}",
+                    hex(&k),
+                    fnv1a(&v),
+                    v.len(),
+                    r.as_ref().map(|_| "ok".to_string()).unwrap_or_else(|e| err_name(e))
+                ));
+                j += 1;
+                std::thread::sleep(std::time::Duration::from_millis(1 + j % 7));
+            }
+        } else {
+            std::thread::sleep(std::time::Duration::from_millis(settle));
+        }
+        let ret = tracer.next();
+        tracer.note(format!("{inv} FLUSH ret={ret} res=ok settled-without-flush"));
     }
     // clean close = acknowledgement of everything accepted before it
     if opts.u64("close", 1) == 1 {
@@ -828,6 +869,121 @@ pub fn run(opts: &Opts) -> i32 {
         nt += k;
     }
     std::fs::write(format!("{dir}/stats.json"), format!("{{\"images_with_unsynced_writes_applied\": {nt}}}")).unwrap();
+    println!("cases={total}");
+    0
+}
+
+/// engine `lag` (C19): workloads that never flush and never close; after a settle time everything
+/// accepted before it must be on the device.  Shard and worker counts follow the CPUs the child sees.
+pub fn run_lag(opts: &Opts) -> i32 {
+    let dir = opts.str("out", "/verif/.build/cases/lag");
+    let seed = opts.u64("seed", 1);
+    let shards = opts.u64("shards", 16);
+    let per = opts.u64("n", if opts.thorough() { 20 } else { 1 });
+    let keep = format!("{dir}/images");
+    std::fs::create_dir_all(&keep).unwrap();
+    let mut handles = Vec::new();
+    for sh in 0..shards {
+        let dir = dir.clone();
+        let keep = keep.clone();
+        handles.push(std::thread::spawn(move || {
+            let mut out = Out::new(&dir, &format!("s{sh}"));
+            let mut rng = Rng::new(seed.wrapping_mul(69_069).wrapping_add(sh));
+            let mut dist = BTreeMap::<String, u64>::new();
+            for w in 0..per {
+                let base = format!("{keep}/l{sh}_{w}.feox");
+                // CPUs visible to the child decide how many write-buffer shards and workers it builds
+                let cpus = *rng.pick(&[1u64, 2, 3, 4, 6, 8, 12, 16]);
+                let first = rng.below(17 - cpus);
+                let settle = *rng.pick(&[1500u64, 2000]);
+                let noise = rng.below(2);
+                let burst = rng.chance(1, 4);
+                let args = vec![
+                    "-c".to_string(),
+                    format!("{}-{}", first, first + cpus - 1),
+                    crate::img::self_exe().to_string_lossy().to_string(),
+                    "tracegen".into(),
+                    format!("path={base}"),
+                    format!("seed={}", rng.next() % 1_000_000_007),
+                    format!("blocks={}", if burst { 4096 } else { *rng.pick(&[256u64, 512]) }),
+                    format!("ops={}", if burst { rng.range(600, 1500) } else { rng.range(20, 120) }),
+                    format!("nkeys={}", if burst { 400 } else { rng.range(8, 64) }),
+                    format!("sync={}", rng.below(2)),
+                    "noflush=1".into(),
+                    format!("settle_ms={settle}"),
+                    format!("noise={noise}"),
+                    "ttl=0".into(),
+                    "close=0".into(),
+                ];
+                let start = std::time::Instant::now();
+                let g = std::process::Command::new("taskset")
+                    .args(&args)
+                    .stdout(std::process::Stdio::piped())
+                    .stderr(std::process::Stdio::null())
+                    .spawn()
+                    .ok()
+                    .and_then(|mut c| loop {
+                        match c.try_wait() {
+                            Ok(Some(_)) => break c.wait_with_output().ok().map(|o| String::from_utf8_lossy(&o.stdout).trim().to_string()),
+                            Ok(None) if start.elapsed().as_secs() > 120 => {
+                                let _ = c.kill();
+                                let _ = c.wait();
+                                break Some("TIMEOUT".to_string());
+                            }
+                            Ok(None) => std::thread::sleep(std::time::Duration::from_millis(5)),
+                            Err(_) => break None,
+                        }
+                    });
+                if g.as_deref().map_or(true, |s| !s.starts_with("tracegen-done")) {
+                    out.emit3(&format!("note tracegen-failed {:?}", g), "note", "FAIL workload-child-failed-or-hung");
+                    continue;
+                }
+                let Some(t) = load_trace(&base) else {
+                    out.emit3("note trace-unreadable", "note", "FAIL trace-unreadable");
+                    continue;
+                };
+                let states = key_states(&t);
+                let ack = acks(&t);
+                *dist.entry(format!("cpus={cpus} noise={noise} burst={}", burst as u8)).or_default() += 1;
+                for (pi, plan) in ack_plans(&t).into_iter().enumerate() {
+                    let img = build_image(&t, plan.durable_upto, &plan.extra);
+                    let ipath = format!("{keep}/l{sh}_{w}_{pi}.img");
+                    std::fs::write(&ipath, &img).unwrap();
+                    let (now, recsize, line) = probe_image(&ipath, &format!("{ipath}.probe"), false, false);
+                    let mut verdict = crash_verdict(&t, &states, &ack, plan.cut, &line);
+                    if verdict != "ok" {
+                        verdict.push_str(&format!(" class=not-durable-{settle}ms-after-the-call-without-flush cpus={cpus}"));
+                    } else if noise == 0 && plan.label.ends_with("durable-only") {
+                        // retirement is write-behind too: with nothing in flight every superseded or
+                        // deleted generation must already be marked dead on the device
+                        if let Some((n, _)) = parse_open(&line) {
+                            let heads = crate::mutimg::live_heads(&img) as u64;
+                            if heads > n {
+                                verdict = format!("FAIL superseded-generations-not-retired-{settle}ms-after-the-call live-keys={n} record-heads-on-device={heads} cpus={cpus}");
+                            }
+                        }
+                    }
+                    out.emit3(
+                        &format!("open {ipath} ro=0 allow=0 ttl=0 now={now} recsize={recsize} plan={} cpus={cpus} settle={settle} noise={noise} trace={base}", plan.label),
+                        &line,
+                        &verdict,
+                    );
+                }
+            }
+            (out.finish(), dist)
+        }));
+    }
+    let mut total = 0;
+    let mut all = BTreeMap::<String, u64>::new();
+    for h in handles {
+        let (n, d) = h.join().unwrap();
+        total += n;
+        for (k, v) in d {
+            *all.entry(k).or_default() += v;
+        }
+    }
+    let dist = all.iter().map(|(k, v)| format!("\"{k}\": {v}")).collect::<Vec<_>>().join(", ");
+    std::fs::write(format!("{dir}/stats.json"), format!("{{{dist}}}")).unwrap();
     println!("cases={total}");
     0
 }
